@@ -54,6 +54,17 @@ theorem defaults_and_caller_dicts_never_change (ops : List Heap.Op) (h : Heap.H)
   Heap.unowned_cells_never_change ops h hs a ha
     (fun i he => by rcases hown with ho | ho <;> rw [ho] at he <;> cases he) hnw
 
+/-- the same with no hypothesis on the heap: in every state reachable from the empty heap by any program `pre`,
+    a class-level default dict or a caller-built dict keeps its content through any continuation that contains
+    no caller write to it -/
+theorem defaults_and_caller_dicts_never_change_reachable (pre ops : List Heap.Op) (a : Nat)
+    (ha : a < (Heap.run true Heap.H.empty pre).next)
+    (hown : (Heap.run true Heap.H.empty pre).owner a = .cls ∨ (Heap.run true Heap.H.empty pre).owner a = .caller)
+    (hnw : ∀ op ∈ ops, ∀ k v, op ≠ .callerWrite a k v) :
+    (Heap.run true Heap.H.empty (pre ++ ops)).cells a = (Heap.run true Heap.H.empty pre).cells a := by
+  have := defaults_and_caller_dicts_never_change ops _ (sep_reachable pre) a ha hown hnw
+  simpa [Heap.run, List.foldl_append] using this
+
 /-- the premises are satisfiable, and the legacy setter breaks the conclusion on the same program:
     a class default dict used by two instances, one of them updated -/
 example : let pre : List Heap.Op := [.clsNew [(1, 5)], .callerNew [(2, 7)]]
